@@ -30,6 +30,18 @@ type searchCfg struct {
 
 func noop(*board.Board) {}
 
+// embeddedQuiet is a quiescence search put together the way a user of the package might: the type embeds the
+// static leaf (so it also has the leaf's Evaluate method) and overrides QuietSearch with the capture search.
+// Behaviour is exactly search.Quiescence's; only the method set differs.
+type embeddedQuiet struct {
+	search.Leaf
+	q search.Quiescence
+}
+
+func (e embeddedQuiet) QuietSearch(ctx context.Context, sctx *search.Context, b *board.Board) (uint64, eval.Score) {
+	return e.q.QuietSearch(ctx, sctx, b)
+}
+
 var searchCfgs = []searchCfg{
 	{name: "full+material", posDetermined: true, mk: func() (search.Search, refsearch.Config, func(*board.Board)) {
 		return search.AlphaBeta{Eval: search.Leaf{Eval: eval.Material{}}}, refsearch.Config{Static: eval.Material{}}, noop
@@ -42,7 +54,8 @@ var searchCfgs = []searchCfg{
 			refsearch.Config{Static: eval.Material{}, QuietExplore: refsearch.CapturesOnly}, noop
 	}},
 	{name: "full+quiet(captures,hash)", posDetermined: true, quiet: true, mk: func() (search.Search, refsearch.Config, func(*board.Board)) {
-		return search.AlphaBeta{Eval: search.Quiescence{Explore: refsearch.CapturesOnly, Eval: search.Leaf{Eval: refsearch.HashEval{}}}},
+		leaf := search.Leaf{Eval: refsearch.HashEval{}}
+		return search.AlphaBeta{Eval: embeddedQuiet{Leaf: leaf, q: search.Quiescence{Explore: refsearch.CapturesOnly, Eval: leaf}}},
 			refsearch.Config{Static: refsearch.HashEval{}, QuietExplore: refsearch.CapturesOnly}, noop
 	}},
 	{name: "turochamp", quiet: true, mk: func() (search.Search, refsearch.Config, func(*board.Board)) {
